@@ -32,6 +32,7 @@ type mcpTable struct {
 }
 
 type mcpModel struct {
+	inlineRank *ssa.Function // the rank function when the role test is written out in the access check
 	p        *Program
 	pkg      *packages.Package
 	info     *types.Info
@@ -676,7 +677,7 @@ func (m *mcpModel) isRetentionMaintenance(g *ssa.Function) bool {
 			m.maint[s.Fn] = true
 		}
 		for f := range m.maint {
-			if nonDelete[f] || len(p.CallSitesOf(f)) < 4 {
+			if nonDelete[f] || p.SharedBy(f) < 4 {
 				m.maint[f] = false
 			}
 		}
